@@ -38,16 +38,18 @@ def coverage(db, ctx):
             a2 = peel(a)
             if a2.get("k") == "MethodCall" and a2.get("method") == "intersects" and mentions(a2["recv"], is_call_to("cat_at_char")):
                 flags = flag_names(a2["args"][0])
-                loops = [fl for nn, fl, pp in _loops_in(n["then"])]
-                ok = flags == {"NOOOVBOW", "NOOOVBOW2"} and p is False and len(loops) == 1
+                from ..loops import iterations, propagates_errors, body_parents, chain as lchain
+                from ..inline import nf
+                its = list(iterations(n["then"]))
+                ok = flags == {"NOOOVBOW", "NOOOVBOW2"} and p is False and len(its) == 1
                 inner_ok = False
-                if loops:
-                    it, pat, body = loops[0]
-                    names, base = _chain(it)
-                    calls = [(c, pp) for c, pp in walk(body) if is_call(c) and path_ends(callee(c), "provide_oovs")]
-                    from ..uses import consumer
-                    inner_ok = not names and "oov_providers" in render(it) and len(calls) == 1 and consumer(calls[0][0], calls[0][1])[0] == "try" and \
-                        not any(x.get("k") in ("Break", "Continue") for x, _ in walk(body))
+                if its:
+                    itn = its[0]
+                    ch, base = lchain(db, f, itn["it"])
+                    calls = [(c, pp) for c, pp in walk(itn["body"], body_parents(itn)) if is_call(c) and path_ends(callee(c), "provide_oovs")]
+                    inner_ok = {m for m, _ in ch} <= {"iter"} and nf(base) == "self.oov_providers" and len(calls) == 1 and \
+                        propagates_errors(itn, calls[0][0], calls[0][1]) and \
+                        not any(x.get("k") in ("Break", "Continue") for x, _ in walk(itn["body"]))
                 found = True
                 ctx.ob("providers-skipped-iff-nooovbow", ok and inner_ok,
                        "provider loop runs under !cat_at_char(pos).intersects(%s); plain loop over oov_providers with `?`: %s" % (sorted(flags), inner_ok), fn=f, site=n.get("sp"))
@@ -171,9 +173,26 @@ def invoke(db, ctx):
             if op in ("Lt", "Le"):
                 op, l, r = {"Lt": "Gt", "Le": "Ge"}[op], r, l
             lim = peel_casts(r)
-            if op == "Gt" and re.fullmatch(DIST, nf(l)) and lim.get("k") == "Path" and (
-                    ("mut_init" in lim and re.fullmatch(RUN, nf(lim["mut_init"]))) or re.fullmatch(RUN, nf(lim))):
-                brk = True
+            if op == "Gt" and re.fullmatch(DIST, nf(l)) and lim.get("k") == "Path":
+                # the values the limit can hold: the initial value of a `let mut` (later decremented), or the branch values of an
+                # `if`-valued immutable let; each must be the run length or the run length minus one
+                from ..db import deref_all
+                vals = []
+                if "mut_init" in lim:
+                    vals = [lim["mut_init"]]
+                else:
+                    d = deref_all(lim)
+
+                    def tails(x):
+                        x = peel(x)
+                        if x.get("k") == "If" and "else" in x:
+                            return tails(x["then"]) + tails(x["else"])
+                        if x.get("k") == "Block" and "expr" in x:
+                            return tails(x["expr"])
+                        return [x]
+                    vals = tails(d)
+                if vals and all(re.fullmatch(r"%s|\(%s - 1\)" % (RUN, RUN), nf(v)) for v in vals):
+                    brk = True
     ctx.ob("run-bounded", brk, "per-length loop breaks when char_distance(offset, i) > (remaining) run length, the limit being initialised from cat_continuous_len(offset): %s" % brk, fn=f)
     cats = any(fl and "cat_at_char(offset)" in render(fl[0]) for n, fl, ps in _loops(f))
     ctx.ob("iterates-all-classes", cats, "candidates are generated for every class in cat_at_char(offset): %s" % cats, fn=f)
